@@ -184,6 +184,19 @@ CLAIMED = {
         "Trusted: numerical core as oracle; bootstrap per-draw clause observed through numerators / denominators. Known finding KF-2.",
         "DESIGN.md section 5 C11",
     ),
+    "C10": (
+        "Lean 4 theorems on the split and aggregation models under a perturbation of one unit's feed row (find/filterMap congruence; value functions change only at the unit's own key) + bridge to the historical masking re-read from source + pair runs with recorded solver arguments",
+        "category_nonreporting / category_blocklisted / category_zero_baseline / findFeed_perturb / joinRow_other / rep_invariant / "
+        "other_rows_invariant prove that replacing the counts of a below-threshold, blocklisted or zero-baseline unit leaves the fitting frame "
+        "and every other row unchanged; other_groups_invariant / own_group_only_own_terms / excluded_unit_local prove that only the unit's own "
+        "groups move, by its own terms; historical_hidden proves the masking (definition regenerated from _format_historical_current_data). "
+        "Pair runs (3 estimators; partial / zero-percent / blocklisted by unit, state or both / zero-baseline / unexpected; counts 0 ... huge) "
+        "compare all other rows bit-for-bit and the recorded arguments of every QuantileRegressionSolver / OLSRegressionSolver call; "
+        "gaussian aggregate pairs at stage level; HistoricalModelClient driven offline; default outlier models on a dedicated stream.",
+        "Trusted: the numerical core as an oracle (its argument independence is what the recordings test); extrapolation and "
+        "correct_from_presidential off.",
+        "DESIGN.md section 5 C10",
+    ),
 }
 
 PENDING_REASON = "check not built yet in this session (model and correspondence in progress); not claimed until it is"
